@@ -379,8 +379,15 @@ def gen(seed, run, tier='quick'):
         elif act['a'] == 'derive_unit':
             t = model.types[act['type']]
             its = [[u, e] for u, (_, e) in zip(act['units'], t['items'])]
-        if not its or len(its) != 2 or abs(its[0][1]) != 1 or \
-                abs(its[1][1]) != 1:
+        if its and len(its) == 2 and (abs(its[0][1]) != 1 or
+                                      abs(its[1][1]) != 1):
+            # a unit made of two units with other exponents (m/s**2): the
+            # plain product and quotient of the same two units are
+            # different things and must not be confused with it
+            directed += [('*', its[0][0], its[1][0]),
+                         ('/', its[0][0], its[1][0])]
+            continue
+        if not its or len(its) != 2:
             continue
         (a, ea), (b, eb) = its
         if ea == -1:
